@@ -125,7 +125,15 @@ func VerifC03Query(h *verifh.H) {
 	pred := []string{"*", "ns0:p1"}[h.Choice("pred", 2)]
 	scope := []string{``, `,"datasets":["d1"]`, `,"datasets":["d1","d2"]`}[h.Choice("scope", 3)]
 	limit := 1 + h.Choice("limit", 2)
-	base := `"startingEntities":["` + start + `"],"predicate":"` + pred + `","inverse":` + vb(inverse) + scope
+	startList := `"` + start + `"`
+	starts := []string{start}
+	if h.Param("multiStart", 0) == 1 && h.Choice("multi", 2) == 1 {
+		// a second start entity in the same request: with a small limit it is not reached by the
+		// first page and comes back in the continuation unscanned
+		startList += `,"ns0:e2"`
+		starts = append(starts, "ns0:e2")
+	}
+	base := `"startingEntities":[` + startList + `],"predicate":"` + pred + `","inverse":` + vb(inverse) + scope
 	full, _, st := vQuery(h, handler, `{`+base+`,"limit":50}`)
 	h.Assert(st == 200, "the unpaged query is answered")
 	sort.Strings(full)
@@ -137,7 +145,7 @@ func VerifC03Query(h *verifh.H) {
 	case `,"datasets":["d1","d2"]`:
 		sc = []string{"d1", "d2"}
 	}
-	direct, err := hub.Store.GetManyRelatedEntitiesBatch([]string{start}, pred, inverse, sc, 0, true)
+	direct, err := hub.Store.GetManyRelatedEntitiesBatch(starts, pred, inverse, sc, 0, true)
 	h.Assert(err == nil, "store-level query")
 	var dp []string
 	for _, r := range direct.Relations {
@@ -154,8 +162,9 @@ func VerifC03Query(h *verifh.H) {
 	h.Assert(st == 200, "the first page is answered")
 	all := append([]string{}, page...)
 	if h.Param("rewrite", 0) == 1 && h.Choice("rewrite", 2) == 1 {
-		// the start entity (or a referrer) is rewritten after the first page
-		h.Assert(d1.StoreEntities([]*server.Entity{mk("ns0:e1", map[string][]string{}, h.Choice("rwdel", 2) == 1)}) == nil, "rewrite")
+		// the start entity, the second start entity or a referrer is rewritten after the first page
+		victim := []string{"ns0:e1", "ns0:e2"}[h.Choice("rwwho", 2)]
+		h.Assert(d1.StoreEntities([]*server.Entity{mk(victim, map[string][]string{}, h.Choice("rwdel", 2) == 1)}) == nil, "rewrite")
 	}
 	for k := 0; len(conts) > 0 && k < 8; k++ {
 		q := `{"continuations":[`
